@@ -10,6 +10,7 @@ STREAMS = {
     'fs': dict(daemon='./cmd/thermal-recorder', strace=True,
                overlay={'cmd/thermal-recorder/zz_verif_main.go': 'thermal-recorder/zz_verif_main.go',
                         'cmd/thermal-recorder/zz_verif_fs.go': 'thermal-recorder/zz_verif_fs.go'}),
+    'writer': dict(daemon='./cmd/thermal-writer', overlay={'cmd/thermal-writer/zz_verif_writer.go': 'thermal-writer/zz_verif_writer.go'}),
     'loglimiter': dict(pkg='./cmd/loglimiter', overlay={'loglimiter/zz_verif_loglimiter.go': 'loglimiter/zz_verif_loglimiter.go'}),
 }
 
@@ -132,7 +133,7 @@ PROPS = {
         assumptions=['LowerLaw: new < bg -> float32(new) - w < float32(bg), true for the non-negative weights that occur', 'the float64 mean is within one count of the exact mean (validated by the monitor, not proved)', 'the clause "background and threshold stored with a recording are those at the trigger" is covered by the e2e stream'],
     ),
     'C10': dict(
-        lean=['Props.FactsWiring'],
+        lean=['Props.C10'],
         streams=['fs'],
         project={'fs': r'^< (?!sys write)'},
         rule='op sequences of the real motion, test and continuous CPTVFileRecorders (start / write n frames / stop / discard) run under strace; every '
